@@ -10,7 +10,7 @@ from vlib.gridmodel import GridModel, fr, overlap
 PID = 'C03'
 LEVEL = 'exploration'
 BUDGET_S = {'quick': 40, 'thorough': 600}
-FLOORS = {'quick': {'point_in_tile': 20000, 'shared_edges': 20000, 'flip': 10000, 'affected_required': 20000,
+FLOORS = {'quick': {'shared_object_rounds': 150, 'shared_object_answers_compared': 100000, 'point_in_tile': 20000, 'shared_edges': 20000, 'flip': 10000, 'affected_required': 20000,
                     'affected_forbidden': 20000, 'affected_layout': 5000, 'level_choice': 20000,
                     'origin_support_true': 50, 'origin_support_false': 50, 'traffic_requests': 150,
                     'monitored_affected_calls': 150, 'monitored_tile_bbox_calls': 500, 'monitored_level_calls': 100},
@@ -645,6 +645,94 @@ def run_traffic(run, case):
         shutil.rmtree(d, ignore_errors=True)
 
 
+def shared_object_phase(run, case, spec, grid, levels, rng):
+    """a TileGrid is one object shared by all request threads of a server. Its answers must not depend on who else asks:
+    a list of calls (tile, tile_bbox, flip, affected tiles, closest level) is answered by a fresh grid object alone
+    (reference), then four real threads put the same calls to ONE shared object at once (interpreter switch interval
+    1 microsecond), and afterwards the shared object answers them once more alone. All three must agree exactly."""
+    import threading
+    b = grid.bbox
+    calls = []
+    for _ in range(60):
+        z = rng.choice(levels)
+        x = b[0] + (b[2] - b[0]) * rng.random()
+        y = b[1] + (b[3] - b[1]) * rng.random()
+        kind = rng.choice(['tile', 'tile', 'tile_bbox', 'flip', 'affected', 'closest'])
+        if kind == 'tile':
+            calls.append(('tile', (x, y, z)))
+        elif kind == 'tile_bbox':
+            nx, ny = grid.grid_sizes[z]
+            calls.append(('tile_bbox', ((rng.randrange(nx), rng.randrange(ny), z),)))
+        elif kind == 'flip':
+            nx, ny = grid.grid_sizes[z]
+            calls.append(('flip_tile_coord', ((rng.randrange(nx), rng.randrange(ny), z),)))
+        elif kind == 'affected':
+            # a rectangle of a few tiles of that level (the tile list is materialised)
+            w_ = min(b[2] - b[0], grid.resolution(z) * grid.tile_size[0] * rng.uniform(0.3, 4.5))
+            h_ = min(b[3] - b[1], grid.resolution(z) * grid.tile_size[1] * rng.uniform(0.3, 4.5))
+            x0 = max(b[0], min(x, b[2] - w_))
+            y0 = max(b[1], min(y, b[3] - h_))
+            calls.append(('get_affected_level_tiles', ((x0, y0, x0 + w_, y0 + h_), z)))
+        else:
+            calls.append(('closest_level', (grid.resolution(z) * rng.uniform(0.6, 1.6),)))
+
+    def ask(g, c):
+        try:
+            r = getattr(g, c[0])(*c[1])
+            if c[0] == 'get_affected_level_tiles':
+                r = (r[0], r[1], list(r[2]))
+            return ('ok', r)
+        except Exception as ex:
+            return ('raised', type(ex).__name__)
+    fresh = build_grid(spec)
+    ref = [ask(fresh, c) for c in calls]
+    shared = build_grid(spec)
+    diffs = []
+    lock = threading.Lock()
+    nthreads = 4
+    start = threading.Barrier(nthreads)
+
+    def client(k):
+        order = list(range(len(calls)))
+        order = order[k * 7:] + order[:k * 7]
+        try:
+            start.wait(20)
+            for _ in range(3):
+                for i in order:
+                    got = ask(shared, calls[i])
+                    if got != ref[i]:
+                        with lock:
+                            diffs.append((i, got, 'concurrently'))
+        except Exception as ex:
+            with lock:
+                diffs.append((-1, ('raised', repr(ex)), 'concurrently'))
+    old_switch = sys.getswitchinterval()
+    sys.setswitchinterval(1e-6)
+    try:
+        ths = [threading.Thread(target=client, args=(k,)) for k in range(nthreads)]
+        for t in ths:
+            t.start()
+        for t in ths:
+            t.join(120)
+    finally:
+        sys.setswitchinterval(old_switch)
+    for i, c in enumerate(calls):
+        got = ask(shared, c)
+        if got != ref[i]:
+            diffs.append((i, got, 'alone, after the threads'))
+    run.hit('shared_object_rounds')
+    run.hit('shared_object_answers_compared', len(calls) * (3 * nthreads + 1))
+    run.judge(('shared_object', spec.get('srs'), spec.get('origin')), nontrivial=True)
+    if diffs:
+        i, got, when = diffs[0]
+        run.violation({'clause': 'answer_depends_on_other_callers', 'function': calls[i][0] if i >= 0 else 'any',
+                       'when': 'after' if when.startswith('alone') else 'during'}, dict(case, spec=spec),
+                      '%d of %d answers of a TileGrid shared by %d threads differ from those of a fresh object asked alone; first: %s%r '
+                      'answered %r %s, reference %r' % (len(diffs), len(calls) * (3 * nthreads + 1), nthreads,
+                                                        calls[i][0] if i >= 0 else '?', calls[i][1] if i >= 0 else '', got, when,
+                                                        ref[i] if i >= 0 else None))
+
+
 def run_case(run, case):
     if case.get('kind') == 'traffic':
         return run_traffic(run, case)
@@ -665,6 +753,8 @@ def run_case(run, case):
     p.clause_flip(prng)
     p.clause_affected(prng)
     p.clause_level(prng)
+    if case['i'] % 4 == 0 or run.replaying:
+        shared_object_phase(run, case, spec, grid, p.levels, run.rng('threads', case['i']))
     run.hit('grids')
     if case['i'] < 3:
         run.sample({'grid': spec, 'levels': grid.levels, 'grid_sizes_first': [list(s) for s in list(grid.grid_sizes)[:4]],
